@@ -41,6 +41,8 @@ def plan(thorough):
             base = f.base_values()
             if base is None:
                 continue
+            # jump-target slots: an immediate instead of a label (the SimpleAssembler behind the macro has no labels)
+            base = {k: (next((x for x in f.domain(k) if isinstance(x, int)), 0) if isinstance(v, str) and v.startswith("->") else v) for k, v in base.items()}
             regslots = [(k, i) for (k, i) in f.slots if (k in A64_KINDS if arch == "aarch64" else k in ("X", "F")) and isinstance(f.constraints.get(i), (forms.R, forms.Named))]
             dep = [i for (_, i) in regslots if isinstance(f.constraints.get(i), forms.Named)]
             for pos, (kind, idx) in enumerate(regslots):
@@ -147,6 +149,10 @@ def sweep(run, focus, thorough):
             if st != "ok":
                 m["kind"] = "runtime-register-panics"
                 run.violation("failing-input", m, f"{desc} panics ({b[:80]}) although the literal register assembles to {lw.hex()}", payload)
+            elif b != lw and focus == "C03" and f.arch == "aarch64" and kind in ("WSP", "XSP") and n != 31:
+                # `WSP(0)` names w0 in the sp-family slot; the literal `w0` is matched by the plain-register entry of the mnemonic when there is one
+                # (mov w0, w1 = orr, mov WSP(0), w1 = add #0): two encodings of the same move chosen by the matcher, not by the operand encoder
+                stats["sp_family_other_entry"] = stats.get("sp_family_other_entry", 0) + 1
             elif b != lw and focus == "C03":
                 m["kind"] = "runtime-register-differs"
                 run.violation("failing-input", m, f"{desc} assembles to {b.hex()}, the literal register to {lw.hex()}", payload)
